@@ -18,6 +18,7 @@ import GambitV.Gen.PyConcat
 import GambitV.Gen.PyCalcSig
 import GambitV.Gen.PySigList
 import GambitV.Gen.PyParams
+import GambitV.Gen.PyCluster
 import GambitV.Model.Params
 import GambitV.Model.Bulk
 import GambitV.Model.Indexing
@@ -42,6 +43,12 @@ def resStr {α : Type} (f : α → String) : Py.Res α → String
 def cmp (fn : String) (untranslatable : Bool) (gen real : String) : Option String :=
   if untranslatable || gen == real then none
   else some s!"FAIL generated {fn} (translated from the current source) = {gen}, real = {real}"
+
+/-- a Biopython clade as text: `name:length` for a terminal, `(child,child):length` otherwise; `~` = None -/
+partial def cladeStr (c : Py.Clade) : String :=
+  let bl := match c.branch_length with | some x => toString x | none => "~"
+  if c.clades.isEmpty then (match c.name with | some n => toString n | none => "~") ++ ":" ++ bl
+  else "(" ++ ",".intercalate (c.clades.map cladeStr) ++ "):" ++ bl
 
 def matching (F : Forest) (t d : Nat) (real : String) : Option String :=
   cmp "matching_taxon" Gen.matching_taxon.untranslatable (resStr optNatOf (Gen.matching_taxon F t d)) real
